@@ -53,6 +53,15 @@ CLAIMS = {
  "C10": ("exploration", "request-stream monitor on a scripted fake server (tags, fids) + own-reply oracle under every reply permutation + porcupine linearizability of allocator histories + fault injection at every reply point with quiescence/livelock-decided hangs",
          "Reply contents are a function of the request, so every caller can tell its own reply: k<=5 concurrent calls answered in every order, PRNG orders up to k=128 incl. replies released before other callers sent; the allocator is enumerated through a verif hook (all Get/Put sequences to length 8-10 over five ranges) and its concurrent histories (8 goroutines) are checked with porcupine against a free-set model; at each of the 6 reply points of a concurrent session the server closes / sends half a frame / breaks only the client's write side / sends size<7, size>msize, an unknown tag, a wrong R-type, an undecodable body or garbage: pending (and after a break later) calls must fail, never hang (quiescence or CPU-burning livelock), never return success or foreign data, and a second healthy client in the same process must stay undisturbed; walk/clunk/xattr churn with refused binds and failed clunks for fid re-use accounting.",
          "Fake server replies are deterministic functions of request bodies; a bad size field is treated as 'frame the client cannot accept' (pending calls fail), not as a break.", "DESIGN.md section 3 C10"),
+ "C01": ("exploration", "three-view differential: caller's values vs bytes parsed by an independent reference codec vs values reconstructed by the receiver, at a tap between real client and server and at a raw peer over a recording backend",
+         "At versions 0..7 every client method is called with full-range generated arguments: the request frame must decode strictly to the arguments in the specified field order and be byte-identical to the reference encoding; the reply must be byte-identical to the reference encoding of the recording backend's (full-range) results and the caller must get them back. A raw peer sends all 2^14 AttrMask and 2^9 SetAttrMask patterns, boundary-length strings (0..65535 arbitrary bytes) in every string position, walks of 0..200 components, payloads around the msize bound and sentinel values; backend-recorded arguments and reply bytes are compared with the reference. Only permissions & 07777 and whole-entry directory replies may differ.",
+         "internal/wire (written from the protocol documents, no code shared with p9) is the reference; types the client never issues and the server never handles (R-types to the server) are covered by C02's referee only.", "DESIGN.md section 3 C01"),
+ "C03": ("exploration", "call-log oracle on a recording backend behind a real client/server pair with a version-rewriting tap; independent errno reading for 21 error shapes",
+         "For each of versions 0..7, many worlds: every issuing client method (24) on handles derived by attach, walk (0-4 components), clone and create must produce exactly the specified backend call(s) on the File the handle was derived from with equal arguments (permissions & 07777, uid/gid dropped below version 3, walks one component at a time on the returned Files, Rename/Remove as RenameAt/UnlinkAt on the parent under the current name, whole directory entries within the count, io.EOF for an empty read), must hand back the backend's results unchanged and its errors as the errno found through the wrapped chain (EIO if none); SetXattr/RemoveXattr stay local (ENOSYS); only message types the negotiated version defines may cross the tap.",
+         "recfs deep-copies arguments; checks/errno.go is the reference reading of 'equivalent errno'; I/O chunking is C11's.", "DESIGN.md section 3 C03"),
+ "C18": ("exploration", "per-frame oracle (reference decode/encode of that frame alone) over histories with shrinking/growing variable parts interleaved across connections on a recording backend",
+         "Long -> short -> empty -> long ladders for name lists, strings and payloads of 11 message kinds, in deterministic and shuffled order, interleaved over 1-4 connections of one server, with frames rejected mid-decode and msize renegotiation in between; reads through a backend that reports n bytes but fills only n/2 (the rest must be zero, not an earlier reply's bytes); xattr values assembled from two Twrite frames. Backend-observed arguments and reply bytes must match what the reference codec derives from that frame alone. Thorough adds concurrent connections under the race detector.",
+         "recfs deep-copies at call time; a backend that retains buffers is out of scope.", "DESIGN.md section 3 C18"),
 }
 
 PENDING = "check under construction in this round (DESIGN.md section 3); will be claimed once its monitor is committed and silent on the repaired tree"
